@@ -40,6 +40,7 @@ EXTENDS FieldMapRule, Json, SequencesExt
 
 CONSTANTS MaxMaps,      \* mappings per declaration
           SrcNames, TgtNames,  \* which paths of the universe are in play (names below)
+          DstKind,      \* the successor's input type: "struct" VfmDst | "maps" map[string]string | "mapa" map[string]any | "str" string
           SrcKind,      \* "struct": the predecessors return VfmSrc | "map": they return a map[string]any, stream-natively, in chunks
           RepoFixes,    \* repairs already applied to the tree under test (fixed: lines of known_findings.txt): used for the prediction
           VarSet        \* variants of the predecessors' value in play (a case gets "full" and those of VarSet relevant to its sources)
@@ -58,7 +59,14 @@ TMid == [k |-> "struct", n |-> "Mid", f |-> [S |-> TStr, I |-> TIn, P |-> TPIn, 
 TPMid == [k |-> "ptr", n |-> "*Mid", e |-> TMid]
 TMapM == [k |-> "map", n |-> "map[string]Mid", e |-> TMid]
 TDst == [k |-> "struct", n |-> "Dst", f |-> [S |-> TStr, N |-> TInt, A |-> TMid, B |-> TPMid, M |-> TMapS, MI |-> TMapI, MM |-> TMapM, X |-> TAny]]
-TSrc == [k |-> "struct", n |-> "Src", f |-> [S |-> TStr, N |-> TInt, A |-> TMid, B |-> TPMid, M |-> TMapS, X |-> TAny, W |-> TDst]]
+\* a NON-EMPTY interface type (VfmShape) with a walkable implementation (VfmBox struct / *VfmBox) and a non-walkable one (VfmLabel string)
+TShape == [k |-> "any", n |-> "Shape"]
+TBox == [k |-> "struct", n |-> "Box", f |-> [I |-> TIn]]
+TPBox == [k |-> "ptr", n |-> "*Box", e |-> TBox]
+TMapY == [k |-> "map", n |-> "map[string]Shape", e |-> TShape]
+TSrc == [k |-> "struct", n |-> "Src", f |-> [S |-> TStr, N |-> TInt, A |-> TMid, B |-> TPMid, M |-> TMapS, MA |-> TMapA, X |-> TAny, Y |-> TShape, YM |-> TMapY, W |-> TDst]]
+\* the successor's input type
+DT == CASE DstKind = "struct" -> TDst [] DstKind = "maps" -> TMapS [] DstKind = "mapa" -> TMapA [] DstKind = "str" -> TStr
 
 \* the predecessors' output type
 TMapSrc == [k |-> "map", n |-> "map[string]any", e |-> TAny]
@@ -103,9 +111,11 @@ MidVal(pred, at) == VStruct(TMid, [S |-> VStr(Nm(pred, at \o ".S")), I |-> LeafI
                                    M |-> VMap(TMapS, ("k" :> VStr(Nm(pred, at \o ".M.k")))), X |-> VAny(VStr(Nm(pred, at \o ".X")))])
 WVal(pred) == VStruct(TDst, [S |-> VStr(Nm(pred, "W.S")), N |-> VInt(9), A |-> MidVal(pred, "W.A"), B |-> VNilPtr(TPMid),
                              M |-> VMap(TMapS, ("k" :> VStr(Nm(pred, "W.M.k")))), MI |-> VNilMap(TMapI), MM |-> VNilMap(TMapM), X |-> VNilAny])
+BoxVal(pred, at) == VStruct(TBox, [I |-> LeafIn(pred, at \o ".I")])
 BaseF(pred) == [S |-> VStr(Nm(pred, "S")), N |-> VInt(5), A |-> MidVal(pred, "A"), B |-> VPtr(TPMid, MidVal(pred, "B")),
-                M |-> VMap(TMapS, ("k" :> VStr(Nm(pred, "M.k")))), X |-> VAny(MidVal(pred, "X")), W |-> WVal(pred)]
-Variants == {"full", "nilB", "nilBP", "nokey", "nilM", "Xptr", "Xmap", "Xmapmap", "Xmapint", "Xstr", "Xnil", "AXint", "AXnil"}
+                M |-> VMap(TMapS, ("k" :> VStr(Nm(pred, "M.k")))), X |-> VAny(MidVal(pred, "X")), W |-> WVal(pred),
+                MA |-> VMap(TMapA, ("k" :> VAny(VStr(Nm(pred, "MA.k"))))), Y |-> VAny(BoxVal(pred, "Y")), YM |-> VMap(TMapY, ("k" :> VAny(BoxVal(pred, "YM.k"))))]
+Variants == {"full", "Yptr", "Ystr", "Ynil", "nilB", "nilBP", "nokey", "nilM", "Xptr", "Xmap", "Xmapmap", "Xmapint", "Xstr", "Xnil", "AXint", "AXnil"}
 SrcVal(pred, var) ==
   LET b == BaseF(pred)
       f == CASE var = "full" -> b
@@ -121,6 +131,9 @@ SrcVal(pred, var) ==
              [] var = "Xnil" -> [b EXCEPT !.X = VNilAny]
              [] var = "AXint" -> [b EXCEPT !.A = [MidVal(pred, "A") EXCEPT !.f.X = VAny(VInt(4))]]
              [] var = "AXnil" -> [b EXCEPT !.A = [MidVal(pred, "A") EXCEPT !.f.X = VNilAny]]
+             [] var = "Yptr" -> [b EXCEPT !.Y = VAny(VPtr(TPBox, BoxVal(pred, "Y"))), !.YM = VMap(TMapY, ("k" :> VAny(VPtr(TPBox, BoxVal(pred, "YM.k")))))]
+             [] var = "Ystr" -> [b EXCEPT !.Y = VAny(VStr(Nm(pred, "Y"))), !.YM = VMap(TMapY, ("k" :> VAny(VStr(Nm(pred, "YM.k")))))]
+             [] var = "Ynil" -> [b EXCEPT !.Y = VNilAny, !.YM = VMap(TMapY, ("k" :> VNilAny))]
   IN VStruct(TSrc, f)
 
 (* Map-typed predecessor (SrcKind = "map"): the node is stream-native; in value mode the engine concatenates its chunks, in stream
@@ -137,11 +150,12 @@ PredChunks(pred, var) == IF SrcKind = "map" /\ var = "sparse"
 SrcPath(n) == CASE n = "S" -> <<"S">> [] n = "N" -> <<"N">> [] n = "AIS" -> <<"A", "I", "S">> [] n = "BPS" -> <<"B", "P", "S">>
                 [] n = "Mk" -> <<"M", "k">> [] n = "XIS" -> <<"X", "I", "S">> [] n = "AX" -> <<"A", "X">> [] n = "AI" -> <<"A", "I">>
                 [] n = "A" -> <<"A">> [] n = "W" -> <<"W">> [] n = "all" -> <<>>
+                [] n = "YIS" -> <<"Y", "I", "S">> [] n = "YMkIS" -> <<"YM", "k", "I", "S">> [] n = "MA" -> <<"MA">> [] n = "M" -> <<"M">>
                 [] n = "ms" -> <<"s">> [] n = "mt" -> <<"t">> [] n = "mn" -> <<"n">> [] n = "miS" -> <<"i", "S">>
 TgtPath(n) == CASE n = "S" -> <<"S">> [] n = "N" -> <<"N">> [] n = "AIS" -> <<"A", "I", "S">> [] n = "AMk" -> <<"A", "M", "k">>
                 [] n = "BPS" -> <<"B", "P", "S">> [] n = "MIkS" -> <<"MI", "k", "S">> [] n = "MIkN" -> <<"MI", "k", "N">> [] n = "MMkIS" -> <<"MM", "k", "I", "S">> [] n = "MMkPS" -> <<"MM", "k", "P", "S">> [] n = "MMkMk" -> <<"MM", "k", "M", "k">>
                 [] n = "Xk" -> <<"X", "k">> [] n = "Xj" -> <<"X", "j">> [] n = "Xkj" -> <<"X", "k", "j">> [] n = "AI" -> <<"A", "I">> [] n = "A" -> <<"A">>
-                [] n = "all" -> <<>>
+                [] n = "all" -> <<>> [] n = "k" -> <<"k">>
 
 (* checkAndExtractFieldType, literally: a map step, pointer dereference, a struct field; an interface before the last element
    stops the walk (intermediate interface); a non-container at the LAST element is accepted with its own type *)
@@ -158,13 +172,13 @@ Assignable(a, b) == IF a.n = b.n THEN "must" ELSE IF b.k = "any" THEN "must" ELS
 \* which run-time checker validateFieldMapping installs for a mapping: "none" | "hop" | "may"; "bad" = rejected statically
 Checker(s, t) ==
   LET a == TypeAt(ST, s)
-      b == TypeAt(TDst, t)
+      b == TypeAt(DT, t)
   IN IF Len(s) = 0 /\ Len(t) = 0 THEN "none"            \* plain edge (AddInput without mappings): typed by the graph, no field mapping
      ELSE IF ~a.ok \/ ~b.ok THEN "bad"
      ELSE IF b.inter THEN (IF b.t.k = "any" THEN "none" ELSE "bad")
      ELSE IF a.inter THEN "hop"
      ELSE CASE Assignable(a.t, b.t) = "must" -> "none" [] Assignable(a.t, b.t) = "may" -> "may" [] OTHER -> "bad"
-TKind(t) == LET b == TypeAt(TDst, t).t IN CASE b.k = "str" -> "s" [] b.k = "int" -> "n" [] b.k = "any" -> "any" [] OTHER -> "tree"
+TKind(t) == LET b == TypeAt(DT, t).t IN CASE b.k = "str" -> "s" [] b.k = "int" -> "n" [] b.k = "any" -> "any" [] OTHER -> "tree"
 \* dynamically typed sources (run-time checker) are paired with string / int / any targets only, so that the rule can tell a
 \* fitting value from a mismatching one by its leaf kind
 Pairs == {<<s, t>> \in SrcNames \X TgtNames : /\ Checker(SrcPath(s), TgtPath(t)) # "bad" /\ ~(s = "all" /\ t = "all")
@@ -232,7 +246,7 @@ FieldMapFrom(maps, i, out, allowAbsent, Fx, acc) ==
        ELSE [st |-> r.st, why |-> r.why, taken |-> {}]
 
 \* run-time checkers of one edge (validateFieldMapping); as coded every closure tests against the LAST mapping's target type
-TargetType(t) == TypeAt(TDst, t).t
+TargetType(t) == TypeAt(DT, t).t
 CheckOne(kind, v, TT) ==
   LET d == Dyn(v) IN
   IF kind = "hop" THEN (IF d.k = "invalid" THEN "panic" ELSE IF TT.k = "any" \/ TypeOfVal(d).n = TT.n THEN "ok" ELSE "err")
@@ -280,9 +294,9 @@ SetPath(d, T, p, val, Fx) ==
             [] OTHER -> FAIL
 RECURSIVE ConvertSeq(_, _, _)
 ConvertSeq(d, seq, Fx) == IF Len(seq) = 0 THEN OK(d)
-                          ELSE LET r == SetPath(d, TDst, seq[1].t, seq[1].v, Fx) IN IF r.ok THEN ConvertSeq(r.v, Tail(seq), Fx) ELSE r
+                          ELSE LET r == SetPath(d, DT, seq[1].t, seq[1].v, Fx) IN IF r.ok THEN ConvertSeq(r.v, Tail(seq), Fx) ELSE r
 \* the Go map is iterated in an arbitrary order: all results
-ConvertAll(taken, Fx) == {ConvertSeq(Zero(TDst), sq, Fx) : sq \in {SetToSeq(taken)} \cup (IF Cardinality(taken) <= 3 THEN {s \in [1..Cardinality(taken) -> taken] : Range(s) = taken} ELSE {})}
+ConvertAll(taken, Fx) == {ConvertSeq(Zero(DT), sq, Fx) : sq \in {SetToSeq(taken)} \cup (IF Cardinality(taken) <= 3 THEN {s \in [1..Cardinality(taken) -> taken] : Range(s) = taken} ELSE {})}
 
 ----------------------------------------------------------------------------
 (* One call on the compiled workflow: the set of possible outcomes [kind, why, in] *)
@@ -357,13 +371,13 @@ AddToLast(pr) == /\ phase = "grow" /\ Len(decl) > 0 /\ NMaps < MaxMaps /\ Len(de
 OpenGroup(pr) == /\ phase = "grow" /\ Len(decl) < 2 /\ NMaps < MaxMaps
                  /\ decl' = Append(decl, [pred |-> IF Len(decl) = 0 THEN "p1" ELSE "p2", maps |-> <<Mk(pr)>>]) /\ UNCHANGED <<var, phase>>
 \* AddInput(pred) without any mapping (the whole output as the whole input); in play when the whole-input target is
-OpenWhole == /\ phase = "grow" /\ Len(decl) < 2 /\ NMaps < MaxMaps /\ SrcKind = "struct" /\ "all" \in TgtNames
+OpenWhole == /\ phase = "grow" /\ Len(decl) < 2 /\ NMaps < MaxMaps /\ SrcKind = "struct" /\ DstKind = "struct" /\ "all" \in TgtNames
              /\ decl' = Append(decl, [pred |-> IF Len(decl) = 0 THEN "p1" ELSE "p2", maps |-> <<>>]) /\ UNCHANGED <<var, phase>>
 UsesSrc(names) == \E m \in Range(AllMaps(decl)) : \E n \in names : IsPrefix(SrcPath(n), m.s) /\ n # "all"
 Relevant == IF SrcKind = "map" THEN {"dense", "sparse"} ELSE {"full"} \cup (VarSet \cap
                ((IF UsesSrc({"BPS"}) THEN {"nilB", "nilBP"} ELSE {}) \cup (IF UsesSrc({"Mk"}) THEN {"nokey", "nilM"} ELSE {})
                \cup (IF UsesSrc({"XIS"}) THEN {"Xptr", "Xmap", "Xmapmap", "Xmapint", "Xstr", "Xnil"} ELSE {})
-               \cup (IF UsesSrc({"AX"}) THEN {"AXint", "AXnil"} ELSE {})))
+               \cup (IF UsesSrc({"AX"}) THEN {"AXint", "AXnil"} ELSE {}) \cup (IF UsesSrc({"YIS", "YMkIS"}) THEN {"Yptr", "Ystr", "Ynil"} ELSE {})))
 Finish(v) == /\ phase = "grow" /\ Len(decl) > 0 /\ v \in Relevant /\ var' = v /\ phase' = "done" /\ UNCHANGED decl
 GenNext == (\E pr \in Pairs : AddToLast(pr) \/ OpenGroup(pr)) \/ OpenWhole \/ (\E v \in Variants \cup {"dense", "sparse"} : Finish(v))
 GenSpec == GenInit /\ [][GenNext]_vars
